@@ -315,7 +315,17 @@ pub fn process_file_with_cache(
     // the absolute path, so `a.rs` seen from `sub/` and from the root are different entries
     let path_key = std::path::absolute(file_path)
         .ok()
-        .and_then(|p| p.to_str().map(|p| p.replace('\\', "/")));
+        .and_then(|p| {
+            // A backslash is a separator only on Windows; elsewhere it is an ordinary character
+            // of a file name (`a\b.rs` next to `a/b.rs`) and must stay in the key
+            p.to_str().map(|p| {
+                if cfg!(windows) {
+                    p.replace('\\', "/")
+                } else {
+                    p.to_string()
+                }
+            })
+        });
 
     // Racy-clean rule (as in git's index): a file whose mtime second is not older than this
     // clock reading can be rewritten within that second without changing (mtime, size), so its
